@@ -11,6 +11,8 @@ import (
 	"fmt"
 	"hash"
 	"math/big"
+	"os"
+	"runtime/pprof"
 	"strings"
 
 	"go.dedis.ch/kyber/v4"
@@ -45,7 +47,7 @@ func (t *tape) XORKeyStream(dst, src []byte) {
 	}
 }
 
-const tapeLen = 1 << 15
+const tapeLen = 1 << 13
 
 func xofBytes(seed []byte, n int) []byte {
 	b := make([]byte, n)
@@ -56,7 +58,7 @@ func xofBytes(seed []byte, n int) []byte {
 // mkTape builds the stream bytes of one class.
 func mkTape(r *vh.Rng, class string, cand int) []byte {
 	b := xofBytes(r.Bytes(16), tapeLen)
-	k := (1 + r.Intn(2)) * cand
+	k := (1 + r.Intn(4)) * cand
 	switch class {
 	case "zero":
 		for i := 0; i < k; i++ {
@@ -65,6 +67,15 @@ func mkTape(r *vh.Rng, class string, cand int) []byte {
 	case "ff":
 		for i := 0; i < k; i++ {
 			b[i] = 0xff
+		}
+	case "zero-partial": // leading zero bytes: short big-endian coordinates, small little-endian tails
+		for i := 0; i < 1+r.Intn(12); i++ {
+			b[i] = 0
+		}
+		if r.Intn(2) == 0 {
+			for i := 0; i < 1+r.Intn(6); i++ {
+				b[cand-1-i] = 0
+			}
 		}
 	case "ff-partial": // high bytes 0xff, then random: candidates just below / above the modulus
 		for i := 0; i < 4+r.Intn(12); i++ {
@@ -80,8 +91,32 @@ type eg struct {
 	name  string
 	g     kyber.Group
 	vt    bool
-	model string // "ed" | "p256" | "bn256" | "qr" | ""
-	cand  int    // stream bytes per candidate
+	model string   // "ed" | "p256" | "bn256" | "qr" | ""
+	cand  int      // stream bytes per candidate
+	qrP   *big.Int // residue groups: modulus and subgroup order, for the independent membership test
+	qrQ   *big.Int
+}
+
+// receiver histories: the point Embed/Pick/Hash writes into
+var recvKinds = []string{"fresh", "base", "null", "random-multiple", "previous-pick", "unmarshalled"}
+
+// dirty puts the receiver into one of the histories.
+func dirty(e eg, P kyber.Point, kind int) {
+	vh.Try(func() {
+		switch recvKinds[kind%len(recvKinds)] {
+		case "base":
+			P.Base()
+		case "null":
+			P.Null()
+		case "random-multiple":
+			P.Mul(e.g.Scalar().Pick(&tape{buf: xofBytes([]byte{byte(kind), 7}, 4096)}), nil)
+		case "previous-pick":
+			P.Pick(&tape{buf: xofBytes([]byte{byte(kind), 9}, 4096)})
+		case "unmarshalled":
+			b, _ := e.point().Mul(e.g.Scalar().Pick(&tape{buf: xofBytes([]byte{byte(kind), 11}, 4096)}), nil).MarshalBinary()
+			_ = P.UnmarshalBinary(b)
+		}
+	})
 }
 
 func (e eg) point() kyber.Point {
@@ -226,6 +261,20 @@ func boundaryBlocks(e eg, mods []*big.Int) [][]byte {
 	return out
 }
 
+func randPrime(r *vh.Rng, bits int) *big.Int {
+	for {
+		v := new(big.Int).SetBytes(r.Bytes((bits + 7) / 8))
+		v.SetBit(v, bits-1, 1)
+		for i := v.BitLen() - 1; i >= bits; i-- {
+			v.SetBit(v, i, 0)
+		}
+		v.SetBit(v, 0, 1)
+		if v.ProbablyPrime(32) {
+			return v
+		}
+	}
+}
+
 func p256CurveP() *big.Int {
 	v, _ := new(big.Int).SetString("115792089210356248762697446949407573530086143415290314195533631308867097853951", 10)
 	return v
@@ -299,6 +348,21 @@ func coordCheck(model string, enc []byte) string {
 	return ""
 }
 
+// qrMember: independent (math/big) membership test of a residue-group element: 0 < v < P and v^Q = 1 (mod P).
+func qrMember(e eg, enc []byte) string {
+	if e.qrP == nil {
+		return ""
+	}
+	v := new(big.Int).SetBytes(enc)
+	if v.Sign() <= 0 || v.Cmp(e.qrP) >= 0 {
+		return "element not in (0, P)"
+	}
+	if new(big.Int).Exp(v, e.qrQ, e.qrP).Cmp(big.NewInt(1)) != 0 {
+		return "v^Q != 1 (mod P): not in the subgroup of order Q"
+	}
+	return ""
+}
+
 // length field of a point, read from its encoding
 func lengthField(model string, enc []byte) (int, bool) {
 	switch model {
@@ -320,28 +384,47 @@ func lengthField(model string, enc []byte) (int, bool) {
 // ---------------------------------------------------------------- Embed / Pick
 
 type eres struct {
-	ok      bool // no panic
-	pt      []byte
-	used    int
-	dat     []byte
-	datErr  bool
-	dat2    []byte
-	dat2Err bool
-	noData  bool // Data() is not supported by the group
+	ok        bool // no panic
+	pt        []byte
+	used      int
+	dat       []byte
+	datErr    bool
+	dat2      []byte
+	dat2Err   bool
+	noData    bool   // Data() is not supported by the group
+	datAgain  []byte // Data() called a second time
+	datAgainE bool
+	datClone  []byte // Clone().Data()
+	datCloneE bool
+	encAfter  []byte // MarshalBinary after the Data() calls
+	recv      string
 }
 
-func runEmbed(e eg, data []byte, pick bool, buf []byte) (res eres, P kyber.Point, msg string) {
+func runEmbed(e eg, data []byte, pick bool, buf []byte, recv int) (res eres, P kyber.Point, msg string) {
 	t := &tape{buf: buf}
 	P = e.point()
+	res.recv = recvKinds[recv%len(recvKinds)]
+	if recv%len(recvKinds) != 0 {
+		dirty(e, P, recv)
+	}
+	// the callee gets its own copy of the data, which is overwritten after the call:
+	// the point must not alias the caller's buffer
+	var arg []byte
+	if data != nil {
+		arg = append(make([]byte, 0, len(data)+8), data...)
+	}
 	pan, m := vh.Try(func() {
 		if pick {
 			P.Pick(t)
 		} else {
-			P.Embed(data, t)
+			P.Embed(arg, t)
 		}
 	})
 	if pan {
 		return res, nil, m
+	}
+	for i := range arg {
+		arg[i] ^= 0xa5
 	}
 	res.ok = true
 	res.used = t.pos
@@ -354,13 +437,21 @@ func runEmbed(e eg, data []byte, pick bool, buf []byte) (res eres, P kyber.Point
 		d, err := P.Data()
 		res.dat, res.datErr = append([]byte{}, d...), err != nil
 		P2 := e.point()
+		if recv%2 == 1 {
+			dirty(e, P2, recv+1)
+		}
 		if err := P2.UnmarshalBinary(res.pt); err != nil {
 			res.dat2Err = true
 			res.dat2 = []byte("unmarshal:" + err.Error())
-			return
+		} else {
+			d2, err := P2.Data()
+			res.dat2, res.dat2Err = append([]byte{}, d2...), err != nil
 		}
-		d2, err := P2.Data()
-		res.dat2, res.dat2Err = append([]byte{}, d2...), err != nil
+		d3, err := P.Data()
+		res.datAgain, res.datAgainE = append([]byte{}, d3...), err != nil
+		d4, err := P.Clone().Data()
+		res.datClone, res.datCloneE = append([]byte{}, d4...), err != nil
+		res.encAfter, _ = P.MarshalBinary()
 	})
 	if pan && !unsupported(m) {
 		res.ok = false
@@ -394,8 +485,9 @@ func (r eres) coq(data []byte, buf []byte, cand int) string {
 }
 
 type ctx struct {
-	rep  *vh.Report
-	seen map[string]map[string]string // group -> point bytes -> data (distinctness)
+	calls int
+	rep   *vh.Report
+	seen  map[string]map[string]string // group -> point bytes -> data (distinctness)
 }
 
 // embedOracle runs one Embed/Pick and evaluates the property on it.
@@ -406,7 +498,10 @@ func (c *ctx) embedOracle(e eg, data []byte, pick bool, buf []byte, class string
 		op = "Pick"
 	}
 	in := map[string]interface{}{"group": e.name, "op": op, "data": hexOrNil(data[:min(len(data), 64)]), "data_len": len(data), "stream_class": class, "stream_prefix": vh.Hex(buf[:4*e.cand])}
-	res, P, msg := runEmbed(e, data, pick, buf)
+	c.calls++
+	recv := c.calls % len(recvKinds)
+	res, P, msg := runEmbed(e, data, pick, buf, recv)
+	in["receiver"] = recvKinds[recv]
 	if !res.ok {
 		if unsupported(msg) {
 			rep.Dist("unsupported:" + e.name + "." + op)
@@ -419,11 +514,20 @@ func (c *ctx) embedOracle(e eg, data []byte, pick bool, buf []byte, class string
 	in["point"] = vh.Hex(res.pt)
 	in["consumed"] = res.used
 	rep.Dist(e.name + "." + op + ":" + class)
+	rep.Dist("config:" + e.name)
+	rep.Dist("receiver:" + recvKinds[recv])
+	el := 0
+	vh.Try(func() { el = e.point().EmbedLen() })
+	rep.Dist("len:" + lenClass(data, el))
 	rep.Dist(fmt.Sprintf("candidates:%s:%d", e.model, min(res.used/e.cand, 12)))
 	// membership
 	if why := coordCheck(e.model, res.pt); why != "" {
 		in["why"] = why
 		rep.Fail(e.name+"."+op+"/coordinate-out-of-range-or-off-curve", "the returned point has a non-canonical coordinate or is not on the curve: "+why, in)
+	}
+	if why := qrMember(e, res.pt); why != "" {
+		in["why"] = why
+		rep.Fail(e.name+"."+op+"/not-in-group", "independent membership test of the residue-group element failed: "+why, in)
 	}
 	if ok, why := inGroup(e, P); !ok {
 		in["why"] = why
@@ -434,10 +538,55 @@ func (c *ctx) embedOracle(e eg, data []byte, pick bool, buf []byte, class string
 	for i := res.used; i < len(buf2) && i < res.used+256; i++ {
 		buf2[i] ^= 0x5a
 	}
-	res2, _, _ := runEmbed(e, data, pick, buf2)
+	res2 := res
+	if c.calls%2 == 0 || len(data) <= 64 && e.name != "ed25519vartime-pkg" {
+		res2, _, _ = runEmbed(e, data, pick, buf2, recv)
+	}
 	if !res2.ok || !bytes.Equal(res2.pt, res.pt) || res2.used != res.used {
 		in["second"] = vh.Hex(res2.pt)
 		rep.Fail(e.name+"."+op+"/not-a-function-of-consumed-bytes", "a second run on a stream with the same consumed prefix gave another point or consumption", in)
+	}
+	// ... nor is the previous content of the receiver
+	other := 0
+	if recv == 0 {
+		other = 1 + c.calls%(len(recvKinds)-1)
+	}
+	res3, _, _ := runEmbed(e, data, pick, buf, other)
+	if !res3.ok || !bytes.Equal(res3.pt, res.pt) || res3.used != res.used || !bytes.Equal(res3.dat, res.dat) || res3.datErr != res.datErr {
+		in["other_receiver"], in["other_point"] = recvKinds[other], vh.Hex(res3.pt)
+		rep.Fail(e.name+"."+op+"/depends-on-receiver", "the result depends on what the receiver held before the call", in)
+	}
+	// a stream object used for two calls in a row: the second call continues where the first stopped
+	if c.calls%4 == 0 {
+		t := &tape{buf: buf}
+		var Pa, Pb kyber.Point
+		pan, _ := vh.Try(func() {
+			Pa, Pb = e.point(), e.point()
+			if pick {
+				Pa.Pick(t)
+				Pb.Pick(t)
+			} else {
+				Pa.Embed(data, t)
+				Pb.Embed(data, t)
+			}
+		})
+		resb, _, _ := runEmbed(e, data, pick, buf[res.used:], 0)
+		if pan || !resb.ok || !bytes.Equal(enc(Pa), res.pt) || !bytes.Equal(enc(Pb), resb.pt) || t.pos != res.used+resb.used {
+			rep.Fail(e.name+"."+op+"/stream-reuse-differs", "two calls on one stream object differ from the calls on the split stream", in)
+		}
+		rep.Dist("receiver:stream-reused")
+	}
+	// Data() is stable: second call, clone, and it does not change the encoding
+	if !res.noData {
+		if res.datAgainE != res.datErr || !bytes.Equal(res.datAgain, res.dat) {
+			rep.Fail(e.name+".Data/second-call-differs", "Data() called twice gave two answers", in)
+		}
+		if res.datCloneE != res.datErr || !bytes.Equal(res.datClone, res.dat) {
+			rep.Fail(e.name+".Data/clone-differs", "Data() of a Clone differs", in)
+		}
+		if !bytes.Equal(res.encAfter, res.pt) {
+			rep.Fail(e.name+".Data/changes-encoding", "the encoding of the point changed by calling Data()", in)
+		}
 	}
 	// lossless
 	if data != nil {
@@ -482,6 +631,31 @@ func (c *ctx) embedOracle(e eg, data []byte, pick bool, buf []byte, class string
 	return res, true
 }
 
+func lenClass(data []byte, el int) string {
+	switch n := len(data); {
+	case data == nil:
+		return "nil"
+	case n == 0:
+		return "0 (empty, non-nil)"
+	case n == 1:
+		return "1"
+	case n < el-1:
+		return "2..EmbedLen-2"
+	case n == el-1:
+		return "EmbedLen-1"
+	case n == el:
+		return "EmbedLen"
+	case n == el+1:
+		return "EmbedLen+1"
+	case n <= el+8:
+		return "EmbedLen+2..+8"
+	case n < 65535:
+		return "255..65534"
+	default:
+		return ">=65535"
+	}
+}
+
 func hexOrNil(b []byte) string {
 	if b == nil {
 		return "nil"
@@ -501,7 +675,7 @@ func retryTape(r *vh.Rng, e eg, data []byte, pick bool, j int) []byte {
 	bu := -1
 	for try := 0; try < 400; try++ {
 		buf := mkTape(r, "xof", e.cand)
-		res, _, _ := runEmbed(e, data, pick, buf)
+		res, _, _ := runEmbed(e, data, pick, buf, 0)
 		if !res.ok {
 			return buf
 		}
@@ -523,6 +697,16 @@ type hgroup struct {
 	hash   func(msg, dst []byte) kyber.Point
 }
 
+// hashRecv selects the history of the receiver the hash-to-group functions write into.
+var hashRecv int
+
+func hp(g kyber.Group, P kyber.Point) kyber.Point {
+	if hashRecv%len(recvKinds) != 0 {
+		dirty(eg{name: "", g: g, cand: 32}, P, hashRecv)
+	}
+	return P
+}
+
 func hashGroups() []hgroup {
 	ed := edwards25519.NewBlakeSHA256Ed25519()
 	b256 := bn256.NewSuite()
@@ -534,28 +718,30 @@ func hashGroups() []hgroup {
 		Hash2(msg, dst []byte) kyber.Point
 	}
 	hs := []hgroup{
-		{eg{"ed25519", ed, false, "ed", 32}, true, func(m, d []byte) kyber.Point {
-			return ed.Point().(interface {
+		{eg{"ed25519", ed, false, "ed", 32, nil, nil}, true, func(m, d []byte) kyber.Point {
+			return hp(ed, ed.Point()).(interface {
 				Hash([]byte, string) kyber.Point
 			}).Hash(m, string(d))
 		}},
-		{eg{"bn256.G1", b256.G1(), false, "bn256", 32}, false, func(m, d []byte) kyber.Point { return b256.G1().Point().(h1).Hash(m) }},
-		{eg{"bn256.G1/HashG1", b256.G1(), false, "bn256", 32}, true, func(m, d []byte) kyber.Point { return bn256.HashG1(m, d) }},
-		{eg{"bn254.G1", bn254.NewSuite().G1(), false, "", 32}, true, func(m, d []byte) kyber.Point {
+		{eg{"bn256.G1", b256.G1(), false, "bn256", 32, nil, nil}, false, func(m, d []byte) kyber.Point { return hp(b256.G1(), b256.G1().Point()).(h1).Hash(m) }},
+		{eg{"bn256.G1/HashG1", b256.G1(), false, "bn256", 32, nil, nil}, true, func(m, d []byte) kyber.Point { return bn256.HashG1(m, d) }},
+		{eg{"bn254.G1", bn254.NewSuite().G1(), false, "", 32, nil, nil}, true, func(m, d []byte) kyber.Point {
 			s := bn254.NewSuite()
 			s.SetDomainG1(d)
-			return s.G1().Point().(h1).Hash(m)
+			return hp(s.G1(), s.G1().Point()).(h1).Hash(m)
 		}},
-		{eg{"kilic.G1", ki.G1(), false, "", 32}, true, func(m, d []byte) kyber.Point {
-			return kilic.NewBLS12381SuiteWithDST(d, d).G1().Point().(h1).Hash(m)
+		{eg{"kilic.G1", ki.G1(), false, "", 32, nil, nil}, true, func(m, d []byte) kyber.Point {
+			ks := kilic.NewBLS12381SuiteWithDST(d, d)
+			return hp(ks.G1(), ks.G1().Point()).(h1).Hash(m)
 		}},
-		{eg{"kilic.G2", ki.G2(), false, "", 32}, true, func(m, d []byte) kyber.Point {
-			return kilic.NewBLS12381SuiteWithDST(d, d).G2().Point().(h1).Hash(m)
+		{eg{"kilic.G2", ki.G2(), false, "", 32, nil, nil}, true, func(m, d []byte) kyber.Point {
+			ks := kilic.NewBLS12381SuiteWithDST(d, d)
+			return hp(ks.G2(), ks.G2().Point()).(h1).Hash(m)
 		}},
-		{eg{"circl.G1", ci.G1(), false, "", 32}, true, func(m, d []byte) kyber.Point { return ci.G1().Point().(h2).Hash2(m, d) }},
-		{eg{"circl.G2", ci.G2(), false, "", 32}, true, func(m, d []byte) kyber.Point { return ci.G2().Point().(h2).Hash2(m, d) }},
-		{eg{"gnark.G1", gn.G1(), false, "", 32}, true, func(m, d []byte) kyber.Point { return gn.G1().Point().(h2).Hash2(m, d) }},
-		{eg{"gnark.G2", gn.G2(), false, "", 32}, true, func(m, d []byte) kyber.Point { return gn.G2().Point().(h2).Hash2(m, d) }},
+		{eg{"circl.G1", ci.G1(), false, "", 32, nil, nil}, true, func(m, d []byte) kyber.Point { return hp(ci.G1(), ci.G1().Point()).(h2).Hash2(m, d) }},
+		{eg{"circl.G2", ci.G2(), false, "", 32, nil, nil}, true, func(m, d []byte) kyber.Point { return hp(ci.G2(), ci.G2().Point()).(h2).Hash2(m, d) }},
+		{eg{"gnark.G1", gn.G1(), false, "", 32, nil, nil}, true, func(m, d []byte) kyber.Point { return hp(gn.G1(), gn.G1().Point()).(h2).Hash2(m, d) }},
+		{eg{"gnark.G2", gn.G2(), false, "", 32, nil, nil}, true, func(m, d []byte) kyber.Point { return hp(gn.G2(), gn.G2().Point()).(h2).Hash2(m, d) }},
 	}
 	return hs
 }
@@ -613,6 +799,17 @@ func (c *ctx) hashOracle(r *vh.Rng, h hgroup, n int) {
 		if b2 := enc(h.hash(append([]byte{}, msg...), append([]byte{}, dst...))); !bytes.Equal(b, b2) {
 			rep.Fail(h.name+".Hash/nondeterministic", "the same message and tag gave two points", in)
 		}
+		// hashing into a receiver that already holds a point gives the same result
+		hashRecv = 1 + i%(len(recvKinds)-1)
+		var b3 []byte
+		pan3, m3 := vh.Try(func() { b3 = enc(h.hash(msg, dst)) })
+		rep.Dist("receiver:hash-into-" + recvKinds[hashRecv])
+		hashRecv = 0
+		if pan3 || !bytes.Equal(b, b3) {
+			in["receiver"], in["other_point"], in["panic"] = recvKinds[1+i%(len(recvKinds)-1)], vh.Hex(b3), m3
+			rep.Fail(h.name+".Hash/depends-on-receiver", "hashing into a used receiver gives another point", in)
+		}
+		rep.Dist("config:hash:" + h.name)
 		// different message (and, where the tag is an input, different tag) => different point
 		key := vh.Hex(msg)
 		if h.hasDst {
@@ -724,6 +921,11 @@ func mustHex(s string) []byte {
 }
 
 func main() {
+	if pf := os.Getenv("C17_PROF"); pf != "" {
+		f, _ := os.Create(pf)
+		pprof.StartCPUProfile(f)
+		defer pprof.StopCPUProfile()
+	}
 	o := vh.ParseFlags()
 	rng := vh.NewRng(o.Seed)
 	rep := vh.NewReport("C17", o.Seed, o.Tier)
@@ -756,6 +958,30 @@ func main() {
 		return g
 	}
 	qr128, qr125 := mkQR(128, "c17-qr128"), mkQR(125, "c17-qr125")
+	// non-default configurations: Schnorr groups p = r*q + 1 with cofactor r > 2 (SetParams)
+	mkDSA := func(seed uint64, qbits int, cof int64) *p256.ResidueGroup {
+		r := vh.NewRng(seed)
+		for {
+			q := randPrime(r, qbits)
+			pp := new(big.Int).Mul(q, big.NewInt(cof))
+			pp.Add(pp, big.NewInt(1))
+			if !pp.ProbablyPrime(32) {
+				continue
+			}
+			for h := int64(2); ; h++ {
+				gen := new(big.Int).Exp(big.NewInt(h), big.NewInt(cof), pp)
+				if gen.Cmp(big.NewInt(1)) != 0 {
+					g := new(p256.ResidueGroup)
+					g.SetParams(pp, q, big.NewInt(cof), gen)
+					return g
+				}
+			}
+		}
+	}
+	dsaR4, dsaR6, dsaR30, dsa160 := mkDSA(4004, 64, 4), mkDSA(6006, 72, 6), mkDSA(3030, 80, 30), mkDSA(1604, 160, 4)
+	qrEg := func(name string, g *p256.ResidueGroup) eg {
+		return eg{name, g, false, "qr", g.PointLen(), g.P, g.Q}
+	}
 	embedGroups := []struct {
 		impls  []eg
 		kind   string
@@ -763,15 +989,19 @@ func main() {
 		sparse bool // quick tier: only the edge lengths
 		bnd    []*big.Int
 	}{
-		{[]eg{{"ed25519", edS, false, "ed", 32}, {"ed25519+vartime", edS, true, "ed", 32},
-			{"ed25519vartime-pkg", edwards25519vartime.NewBlakeSHA256Ed25519(false), false, "ed", 32}}, "CEdEmbed #", 2, false, []*big.Int{edP, edL}},
-		{[]eg{{"p256", p256.NewBlakeSHA256P256(), false, "p256", 33}}, "CWEmbed # 0", 20, false, []*big.Int{p256P, p256N}},
-		{[]eg{{"bn256.G1", bn256.NewSuite().G1(), false, "bn256", 32}}, "CWEmbed # 1", 20, false, []*big.Int{bn256P, bn256N}},
-		{[]eg{{"qr512", qr, false, "qr", 64}}, "CQrEmbed # " + vh.CoqZ(qr.P) + " " + vh.CoqZ(qr.Q), 5, true, []*big.Int{qr.P, qr.Q}},
-		{[]eg{{"qr128", qr128, false, "qr", 16}}, "CQrEmbed # " + vh.CoqZ(qr128.P) + " " + vh.CoqZ(qr128.Q), 25, false, []*big.Int{qr128.P, qr128.Q}},
-		{[]eg{{"qr125", qr125, false, "qr", 16}}, "CQrEmbed # " + vh.CoqZ(qr125.P) + " " + vh.CoqZ(qr125.Q), 25, false, []*big.Int{qr125.P, qr125.Q}},
+		{[]eg{{"ed25519", edS, false, "ed", 32, nil, nil}, {"ed25519+vartime", edS, true, "ed", 32, nil, nil},
+			{"ed25519vartime-pkg", edwards25519vartime.NewBlakeSHA256Ed25519(false), false, "ed", 32, nil, nil}}, "CEdEmbed #", 2, false, []*big.Int{edP, edL}},
+		{[]eg{{"p256", p256.NewBlakeSHA256P256(), false, "p256", 33, nil, nil}}, "CWEmbed # 0", 20, false, []*big.Int{p256P, p256N}},
+		{[]eg{{"bn256.G1", bn256.NewSuite().G1(), false, "bn256", 32, nil, nil}}, "CWEmbed # 1", 20, false, []*big.Int{bn256P, bn256N}},
+		{[]eg{qrEg("qr512", &qr.ResidueGroup)}, "CQrEmbed # " + vh.CoqZ(qr.P) + " " + vh.CoqZ(qr.Q), 5, true, []*big.Int{qr.P, qr.Q}},
+		{[]eg{qrEg("qr128", qr128)}, "CQrEmbed # " + vh.CoqZ(qr128.P) + " " + vh.CoqZ(qr128.Q), 25, false, []*big.Int{qr128.P, qr128.Q}},
+		{[]eg{qrEg("qr125", qr125)}, "CQrEmbed # " + vh.CoqZ(qr125.P) + " " + vh.CoqZ(qr125.Q), 25, false, []*big.Int{qr125.P, qr125.Q}},
+		{[]eg{qrEg("residue.R4-q64", dsaR4)}, "CQrEmbed # " + vh.CoqZ(dsaR4.P) + " " + vh.CoqZ(dsaR4.Q), 40, false, []*big.Int{dsaR4.P, dsaR4.Q}},
+		{[]eg{qrEg("residue.R6-q72", dsaR6)}, "CQrEmbed # " + vh.CoqZ(dsaR6.P) + " " + vh.CoqZ(dsaR6.Q), 40, false, []*big.Int{dsaR6.P, dsaR6.Q}},
+		{[]eg{qrEg("residue.R30-q80", dsaR30)}, "CQrEmbed # " + vh.CoqZ(dsaR30.P) + " " + vh.CoqZ(dsaR30.Q), 40, true, []*big.Int{dsaR30.P, dsaR30.Q}},
+		{[]eg{qrEg("residue.R4-q160", dsa160)}, "CQrEmbed # " + vh.CoqZ(dsa160.P) + " " + vh.CoqZ(dsa160.Q), 40, false, []*big.Int{dsa160.P, dsa160.Q}},
 	}
-	classes := []string{"xof", "zero", "ff", "retry", "xof", "ff-partial"}
+	classes := []string{"xof", "zero", "ff", "retry", "zero-partial", "ff-partial", "xof"}
 	for _, gset := range embedGroups {
 		e0 := gset.impls[0]
 		el := e0.point().EmbedLen()
@@ -835,11 +1065,18 @@ func main() {
 						for i := range data {
 							data[i] = 0
 						}
+					case 2, 3: // leading (and sometimes trailing) zero bytes
+						for i := 0; i < len(data) && i <= r.Intn(4); i++ {
+							data[i] = 0
+						}
+						if len(data) > 0 && r.Intn(2) == 0 {
+							data[len(data)-1] = 0
+						}
 					}
 				}
 				class := classes[(n+rnd)%len(classes)]
 				if data == nil && r.Intn(2) == 0 {
-					class = []string{"zero", "ff", "ff-partial"}[r.Intn(3)]
+					class = []string{"zero", "ff", "ff-partial", "zero-partial"}[r.Intn(4)]
 				}
 				n++
 				var buf []byte
@@ -997,7 +1234,7 @@ func main() {
 	}
 
 	// G1 Pick of bn256 / bn254 against the model: random scalar times the base point
-	for cv, e := range map[int]eg{1: {"bn256.G1", bn256.NewSuite().G1(), false, "bn256", 32}, 2: {"bn254.G1", bn254.NewSuite().G1(), false, "", 32}} {
+	for cv, e := range map[int]eg{1: {"bn256.G1", bn256.NewSuite().G1(), false, "bn256", 32, nil, nil}, 2: {"bn254.G1", bn254.NewSuite().G1(), false, "", 32, nil, nil}} {
 		var items []string
 		q := order(e.name, e.g)
 		bl := boundaryInts(32, []*big.Int{q})
@@ -1023,7 +1260,7 @@ func main() {
 
 	// ------------------------------------------------------------ Pick on every group
 	for _, in := range grpprog.Groups() {
-		e := eg{in.Name, in.G, in.VarTime, "", 32}
+		e := eg{in.Name, in.G, in.VarTime, "", 32, nil, nil}
 		switch {
 		case strings.HasPrefix(in.Name, "ed25519"):
 			e.model = "ed"
@@ -1224,7 +1461,7 @@ func protocolBases(rng *vh.Rng, rep *vh.Report, mult int) {
 		{"bn256.G1", bn256.NewSuiteG1()},
 	}
 	for _, su := range suites {
-		e := eg{su.name, su.s, false, "", 32}
+		e := eg{su.name, su.s, false, "", 32, nil, nil}
 		seen := map[string]string{}
 		for i := 0; i < 3*mult; i++ {
 			r := rng.Fork()
